@@ -5,7 +5,18 @@ import os
 HERE = os.path.dirname(os.path.dirname(os.path.abspath(__file__)))
 
 CLAIMED = {
-    "C08": dict(
+    "C07": dict(
+        level="exploration", design="DESIGN.md 3/C07",
+        text=("Twin histories: every generated class spec is materialised twice, with one class frozen (host and thereby its spec / "
+              "plain subclass, or the nested Leaf / KItem class) and without; the same seeded operations (assignment, deletion, every "
+              "helper with and without _inplace, deepcopy, nested writes through a parent, ill-formed inputs) drive both. After every "
+              "operation: identity snapshots of all pre-existing frozen instances unchanged (cache slots of cached properties "
+              "tolerated); in-place operations on frozen instances raise FrozenInstanceError whenever the twin succeeds; every other "
+              "operation has the twin's outcome class, a distinct result object and the twin's abstract result state."),
+        note=("Trusted: snapshot walker; the non-frozen twin (same library code) as reference for copy-on-write results (differential). "
+              "Direct writes to nested values of non-frozen classes reachable from a frozen instance are out of scope (their own API)."),
+        technique="deterministic simulation: seeded twin operation histories (frozen vs non-frozen), identity-snapshot and differential oracles",
+    ),    "C08": dict(
         level="exploration", design="DESIGN.md 3/C08",
         text=("Seeded histories over several instances of a generated class and its spec / plain subclass (every default style: "
               "none, literal, mutable literal, Attr(default=), Attr(default_factory=), dataclasses.field, re-default / re-declare in "
